@@ -37,6 +37,9 @@ SPEC = dict(
         "SymVerif.Parser.lexAll_renderInput",
         "SymVerif.C17.parse_pretty",
         "SymVerif.C17.parse_pretty_cx",
+        "SymVerif.Parser.doc_shape",
+        "SymVerif.Parser.sepOK_tight",
+        "SymVerif.C17.parse_pretty_tight",
         # 4 meaning of an accepted certificate
         "SymVerif.C17.denote_sound",
         "SymVerif.C17.certificate_sound",
@@ -61,10 +64,8 @@ SPEC = dict(
     not_covered=[
         "the LALR tables of parser.tab.cc and the DFA of tokenizer.cpp are generated code: tied by the differential "
         "run only (the theorems are about the re2c/bison *specifications* as translated)",
-        "parse_pretty needs the side condition SepOK (no whitespace only where the next byte cannot extend the previous "
-        "token); that a printed form never needs whitespace at all is tested (tag arith-exact-tight), not proved; the "
-        "power operator is rendered as ** in the theorem (@ and ^ spellings, implicit-multiplication tokens whose "
-        "identifier starts with e/E, and the Piecewise keyword are tested only)",
+        "in parse_pretty / parse_pretty_tight the power operator is rendered as ** (the @ and ^ spellings, "
+        "implicit-multiplication tokens whose identifier starts with e/E, and the Piecewise keyword are tested only)",
         "floating point: a float literal is checked to be a nearest double (exact integer arithmetic certificate, "
         "floatOk); arithmetic *between* floats is judged by the double oracle only (tolerance 1e-9)",
         "non-constant exponents, function applications with non-symbol arguments, relational/logical results: no Lean "
@@ -90,8 +91,7 @@ SPEC = dict(
                "model tree = generator tree, and the library's canonical result is accepted by a proven-sound "
                "certificate check (rational-function normal form; nearest-double check for float literals) against the "
                "conventional value of that tree; an independent GMP/libm/strtod oracle evaluates the same trees.",
-    level_note="string-level round-trip theorem for all printed forms without Piecewise (whitespace side condition "
-               "SepOK); the generated C++ tables are covered by differential execution; the value certificate covers the "
+    level_note="string-level round-trip theorem for all printed forms without Piecewise (arbitrary whitespace or none); the generated C++ tables are covered by differential execution; the value certificate covers the "
                "exact integer-exponent fragment",
     technique="Pratt/precedence-climbing model with fuel; fuel-monotonicity lemma; round-trip proof by mutual "
               "structural induction on printed forms with left-spine/right-capture invariants (LeftOK/NoCapture); "
